@@ -26,6 +26,11 @@ type HStep struct {
 	DNs     int64    `json:"dns,omitempty"`  // plus this many nanoseconds (>= 1)
 	Reloads int      `json:"reloads"`
 	Def     Defaults `json:"def"`
+	// Remove: the file is moved away before this step's reloads (no Edit in such a step); the configuration falls
+	// back to its built-in defaults. SameMtime (with Edit): the version is put in place carrying the modification
+	// time of the last version that was on disk before (mv back, cp -p, restore from backup)
+	Remove    bool `json:"remove,omitempty"`
+	SameMtime bool `json:"same_mtime,omitempty"`
 }
 
 type HCase struct {
@@ -67,6 +72,22 @@ func drawHistory(t *rapid.T) HCase {
 	n := rapid.IntRange(1, 6).Draw(t, "nsteps")
 	for i := 0; i < n; i++ {
 		var s HStep
+		if i > 0 && rapid.IntRange(0, 11).Draw(t, "remove?") == 0 {
+			s.Remove = true
+			s.Reloads = rapid.IntRange(1, 2).Draw(t, "reloads")
+			s.Def = genDefaults().Draw(t, "def")
+			c.Steps = append(c.Steps, s)
+			// the file comes back: the same content with its old modification time, or a new version
+			var b HStep
+			back := genFile(t, pool, 8, true)
+			b.Edit = &back
+			b.SameMtime = rapid.Bool().Draw(t, "samemtime")
+			b.DSec, b.DNs = 1, 1
+			b.Reloads = 1
+			b.Def = genDefaults().Draw(t, "def")
+			c.Steps = append(c.Steps, b)
+			continue
+		}
 		if rapid.IntRange(0, 9).Draw(t, "edit?") > 0 {
 			f := genFile(t, pool, 8, true)
 			s.Edit = &f
@@ -124,6 +145,7 @@ func runHistory(c HCase) *pbt.Result {
 	var loadedText *string // text of the version the configuration last loaded
 	pending := false       // a version was written that no reload has seen yet
 	sameSecondEdits, editsBetweenReloads := 0, 0
+	removedAt := int64(0) // modification time the file carried when it was moved away
 	lastEditSec := int64(-1)
 	unseenEdits := 0
 
@@ -206,9 +228,28 @@ func runHistory(c HCase) *pbt.Result {
 		return pbt.Fail("%v", err)
 	}
 	for i, s := range c.Steps {
+		if s.Remove && current != nil {
+			if err := os.Remove(path); err != nil {
+				panic(err)
+			}
+			removedAt, current, loadedText, pending = clock, nil, nil, false
+			classes["file-moved-away"] = true
+			for r := 0; r < s.Reloads; r++ {
+				fc.ReloadNowForVerif()
+			}
+			for _, o := range observers {
+				o.calls, o.bad = 0, ""
+			}
+			continue
+		}
 		if s.Edit != nil {
-			clock += s.DSec*1e9 + s.DNs
-			write(s.Edit, clock)
+			if s.SameMtime && current == nil && removedAt != 0 {
+				classes["file-back-with-its-old-modification-time"] = true
+				write(s.Edit, removedAt)
+			} else {
+				clock += s.DSec*1e9 + s.DNs
+				write(s.Edit, clock)
+			}
 			setExpect(s.Edit.kvs())
 		}
 		for r := 0; r < s.Reloads; r++ {
@@ -229,7 +270,7 @@ func runHistory(c HCase) *pbt.Result {
 
 var historySpec = pbt.Register(pbt.Spec[HCase]{
 	Prop: "C18", Name: "config-histories",
-	Rule:  "history = optional initial file, then 1-6 steps of (new version of the file with a modification time dsec seconds + dns nanoseconds after the previous one | no edit) followed by 0-2 reloads; after every reload every non-empty key=value of the current version must be returned by GetValue/GetValueDef (trimmed) and by GetBoolean/GetInt/GetLong/GetFloat/GetIntSet/GetStringArray (strconv on the trimmed value, else the drawn default), two keys never in the file must yield the defaults, and each of 0-3 observers must have been called exactly once per changed version with the new values already visible inside the callback; non-trivial = at least one version written in the same second as the previous version",
+	Rule:  "history = optional initial file, then 1-6 steps of (new version of the file with a modification time dsec seconds + dns nanoseconds after the previous one | no edit) followed by 0-2 reloads; one step in twelve moves the file away (reload: fall-back to the built-in defaults) and the next one brings a version back, half of the time carrying the modification time the file had before it was moved away; after every reload every non-empty key=value of the current version must be returned by GetValue/GetValueDef (trimmed) and by GetBoolean/GetInt/GetLong/GetFloat/GetIntSet/GetStringArray (strconv on the trimmed value, else the drawn default), two keys never in the file must yield the defaults, and each of 0-3 observers must have been called exactly once per changed version with the new values already visible inside the callback; non-trivial = at least one version written in the same second as the previous version",
 	Quick: 6000, Thorough: 600000,
 	Draw: drawHistory, Run: runHistory,
 })
